@@ -233,9 +233,20 @@ class SymBytes:
         return mk_bytes(out)
 
     def translate(self, table, delete=b""):
+        items = self.items
         if delete:
-            raise SxUnsupported("bytes.translate with delete")
-        return mk_bytes([select(list(table), c) if isinstance(c, SymInt) else table[c] for c in self.items])
+            dset = sorted(set(bytes(delete)))
+            kept = []
+            for c in items:
+                if type(c) is int:
+                    if c not in dset:
+                        kept.append(c)
+                elif not bool(sor(*[c == d for d in dset])):     # one fork per symbolic byte: deleted or kept
+                    kept.append(c)
+            items = kept
+        if table is None:
+            return mk_bytes(items)
+        return mk_bytes([select(list(table), c) if isinstance(c, SymInt) else table[c] for c in items])
 
 
 def ite_bool(c, a, b):
@@ -263,6 +274,8 @@ def select(items, idx):
     res = items[hi]
     for k in range(hi - 1, lo - 1, -1):
         res = ite(idx == k, items[k], res)
+    if type(res) is SymInt and all(type(v) is int for v in items):
+        res.prov = (tuple(items), idx, lo, hi)
     return res
 
 
@@ -410,6 +423,30 @@ class SymByteArray(SymBytes):
     def copy(self):
         return SymByteArray(self.items)
 
+    def reverse(self):
+        self.items.reverse()
+
+    def clear(self):
+        self.items.clear()
+
+    def pop(self, i=-1):
+        return self.items.pop(concretize(i))
+
+    def insert(self, i, v):
+        self.items.insert(concretize(i), v)
+
+    def __delitem__(self, i):
+        if isinstance(i, slice):
+            del self.items[slice(*(concretize(x) if x is not None else None for x in (i.start, i.stop, i.step)))]
+        else:
+            del self.items[concretize(i)]
+
+    def __eq__(self, o):
+        return SymBytes.__eq__(self, o)
+
+    def __ne__(self, o):
+        return snot(SymBytes.__eq__(self, o))
+
 
 def _bytes_of(x):
     """SymBytes view of bytes/bytearray/SymBytes (immutable copy)."""
@@ -524,10 +561,22 @@ class SymStr:
         return SymStr.mk([f(c) for c in self.items])
 
     def lower(self):
-        return self._map(lambda c: c if type(c) is int and not (65 <= c <= 90) and c < 128 else (ord(chr(c).lower()) if type(c) is int else _ascii_only(c, ite(sand(c >= 65, c <= 90), c + 32, c))))
+        def f(c):
+            if type(c) is int:
+                return ord(chr(c).lower()) if len(chr(c).lower()) == 1 else _unsupported("case mapping that changes length")
+            if c.dom is not None and not any(65 <= v <= 90 or v > 127 for v in c.dom):
+                return c            # no value this term can take is an upper-case letter: unchanged (keeps its table provenance)
+            return _ascii_only(c, ite(sand(c >= 65, c <= 90), c + 32, c))
+        return self._map(f)
 
     def upper(self):
-        return self._map(lambda c: (ord(chr(c).upper()) if type(c) is int and len(chr(c).upper()) == 1 else (_ascii_only(c, ite(sand(c >= 97, c <= 122), c - 32, c)))))
+        def f(c):
+            if type(c) is int:
+                return ord(chr(c).upper()) if len(chr(c).upper()) == 1 else _unsupported("case mapping that changes length")
+            if c.dom is not None and not any(97 <= v <= 122 or v > 127 for v in c.dom):
+                return c
+            return _ascii_only(c, ite(sand(c >= 97, c <= 122), c - 32, c))
+        return self._map(f)
 
     def find_sym(self, sub, reverse=False):
         """Index of first (last) occurrence as SymInt, -1 if none."""
@@ -595,6 +644,10 @@ class SymStr:
                 out.extend(self.items)
             out.extend(SymStr.of(p).items)
         return SymStr.mk(out)
+
+
+def _unsupported(msg):
+    raise SxUnsupported(msg)
 
 
 def _ascii_only(c, r):
